@@ -73,6 +73,15 @@ def configs(tier):
                         alphabet=dict(A, discard=False, terminate_job=False,
                                       put_faults=('exc',), next=True),
                         depth=d, max_states=40000 if not T else 400000))
+    imr0 = dict(kind='imap', fn='tenfold', items=[1, 2], iter_raise_at=0)
+    imr1 = dict(kind='imap_unordered', fn='tenfold', items=[1, 2],
+                iter_raise_at=1)
+    for jobs in ([ap_ok, imr0], [mp, imr1]):
+        out.append(dict(name='iterable-raises:' + '+'.join(
+            j['kind'] for j in jobs), procs=2, jobs=jobs, pool=pool,
+            alphabet=dict(A, discard=False, terminate_job=False,
+                          put_faults=(), next=True, die=()),
+            depth=d, max_states=40000 if not T else 400000))
     if T:
         out.append(dict(name='apply3w', procs=3, jobs=[ap_ok, ap_boom, ap_tq],
                         pool=pool, alphabet=A, depth=10, max_states=600000))
